@@ -123,6 +123,10 @@ def gen_program(p, seed):
         h = gen_burst(rnd, p, nb)
         h["id"] = rnd.randrange(1 << p["idw"]) if not p.get("oneid") else 1
         isw = rnd.random() < p.get("pwrite", 0.5)
+        while isw and h["len"] < p.get("wminlen", 0):      # (extra draws only when a minimum write-burst length is asked for)
+            i_ = h["id"]
+            h = gen_burst(rnd, p, nb)
+            h["id"] = i_
         dep = []
         if recent and rnd.random() < p.get("pdep", 0.3):
             cands = [r for r in recent[-6:] if r[0] == ("R" if isw else "B")]
@@ -209,8 +213,9 @@ class AxiRun:
         self.rnd = random.Random(seed * 1000003 + 5)
         self.dut, self.axi, self.port = build(cfg)
         m = dict(mem or {})
+        kw = dict(eager=True, wready=m.get("wready", 0.7)) if m.get("eager") else {}
         self.mem = IdealMem([self.port], seed=seed, lat=tuple(m.get("lat", (3, 12))), stall=m.get("stall", 0.3),
-                            max_outstanding=m.get("max_outstanding", 64))
+                            max_outstanding=m.get("max_outstanding", 64), **kw)
         self.bgen = ReadyGen(bready, random.Random(seed + 101))
         self.rgen = ReadyGen(rready, random.Random(seed + 202))
         self.wlead = wlead
